@@ -726,7 +726,28 @@ PROFILES = {'rework': gen_rework, 'parallel': gen_parallel, 'values': gen_values
             'noise': lambda r: gen_buffers(r, True), 'interrupt': gen_interrupt, 'batching': gen_batching}
 
 
-def specs(mix, trace_p=0.0):
+def noisy(spec, rng):
+    """Turn a dyadic spec into one with ordinary decimal times (1.1, 7.3, ...). Only oracles that hold under any
+    rounding may be used on such a model (clock monotone, dispatch order, no crash)."""
+    f = rng.choice([1.1, 0.7, 1.3, 0.9])
+
+    def n(x):
+        return round(x * f + rng.choice([0, 0.1, 0.2]), 1) if isinstance(x, (int, float)) and x > 0 else x
+    for d in all_devs(spec):
+        for k in ('c', 'alt', 'wod'):
+            if isinstance(d.get(k), (int, float)):
+                d[k] = n(d[k])
+    for a in spec['actions']:
+        a[0] = n(a[0])
+        if a[2] in ('fail', 'maint', 'offset') and isinstance(a[4], (int, float)):
+            a[4] = n(a[4]) if a[2] != 'offset' else a[4]
+    spec['T'] = [n(t) for t in spec['T']]
+    spec['profile'] = spec['profile'] + '-noisy'
+    spec.pop('trace', None)
+    return spec
+
+
+def specs(mix, trace_p=0.0, noisy_p=0.0):
     """mix: list of (profile, weight). Strategy producing JSON specs."""
     names = [n for n, w in mix for _ in range(w)]
 
@@ -734,6 +755,8 @@ def specs(mix, trace_p=0.0):
         spec = PROFILES[which](rng)
         if trace_p and rng.random() < trace_p:
             spec['trace'] = True
+        if noisy_p and rng.random() < noisy_p:
+            spec = noisy(spec, rng)
         return spec
     return st.builds(build, st.randoms(use_true_random=False), st.sampled_from(names))
 
